@@ -29,6 +29,8 @@ pub struct SrcSpec {
 
 pub const ACT_UNSUB: i64 = -1;
 pub const ACT_DROP_USING: i64 = -2;
+/// the scope owning the Using guard is left by a panic that is caught further up
+pub const ACT_DROP_USING_UNWINDING: i64 = -3;
 
 #[derive(Clone, Debug)]
 pub struct SeqSpec {
@@ -90,7 +92,7 @@ pub fn spec_from_json(w: &Json) -> Option<SeqSpec> {
     return None;
   }
   let order: Vec<i64> = w.a("order").iter().filter_map(|x| x.as_i64()).collect();
-  if order.len() > 64 || order.iter().any(|o| *o >= sources.len() as i64 || *o < -2) {
+  if order.len() > 64 || order.iter().any(|o| *o >= sources.len() as i64 || *o < -3) {
     return None;
   }
   Some(SeqSpec {
@@ -343,6 +345,16 @@ pub fn run_seq(spec: &SeqSpec, cfg: RunCfg) -> SeqRun {
         if let Some(u) = using.take() {
           let a = rt::seq();
           drop(u);
+          let b = rt::seq();
+          out2.lock().unwrap().unsubs.push((a, b));
+        }
+      } else if *act == ACT_DROP_USING_UNWINDING {
+        if let Some(u) = using.take() {
+          let a = rt::seq();
+          let _ = std::panic::catch_unwind(std::panic::AssertUnwindSafe(move || {
+            let _guard = u;
+            std::panic::resume_unwind(Box::new("scope left by a panic"));
+          }));
           let b = rt::seq();
           out2.lock().unwrap().unsubs.push((a, b));
         }
